@@ -8,6 +8,8 @@ if REPO not in sys.path[:1]:
 os.environ.setdefault("LITEX_VERIF", "1")
 from . import shim312
 shim312.install()
+import logging
+logging.disable(logging.WARNING)      # litex.soc.integration.soc logs the whole SoC hierarchy at INFO
 
 _CAP = {}
 _KEEP = []   # keep instances alive so that id() keys stay unique
